@@ -392,7 +392,12 @@ theorem wencEv_lin (nS nM : Nat) {e e' : Enc} {ev : MEv} (hv : linEv ev = true) 
     {w : W} (hp : e'.out <+: seq) (g : WGood e w) : ∃ w1, Lin seq w w1 ∧ WGood e' w1 := by
   obtain ⟨ty, arg⟩ := ev
   simp only [linEv, Bool.or_eq_true, Bool.and_eq_true, beq_iff_eq, decide_eq_true_eq, bne_iff_ne] at hv
-  rcases hv with ((⟨⟨hty, h1⟩, h2⟩ | ⟨⟨⟨h1, h2⟩, h3⟩, h4⟩) | hslr) | ⟨hcmd, _⟩
+  rcases hv with (((⟨⟨hty, h1⟩, h2⟩ | ⟨⟨⟨h1, h2⟩, h3⟩, h4⟩) | hslr) | ⟨hcmd, _⟩) | ⟨hz, ha⟩
+  rotate_right
+  · subst ha
+    rw [encEv_zero nS nM e hz] at he
+    injection he with he; subst he
+    exact ⟨w, .refl _, g⟩
   · subst hty
     have a1 : arg ≠ 0 := by omega
     obtain ⟨e1, he1⟩ := encRest_ok e arg
